@@ -512,11 +512,15 @@ try:
     buildjob.script_arguments(chk, 'C13')
     whichdo_obligation()
     scn = Scenario(log)
+    # "creating a higher-priority script or removing / editing the chosen one causes the target to be rebuilt with the new choice":
+    # histories through the real scheduler (last: the exploration installs its own hand-over to the jobserver)
+    from specs import schedcheck
+    schedcheck.explore(chk, 'C13', scn)
     validate(rep)
     _r13 = make_replay(rep)
     _rbj = buildjob.make_replay(chk, rep, scn)
     try:
-        chk.finish(lambda c: _rbj(c) if c.get('kind') == 'argv' else (whichdo_replay(scn, c) if c.get('kind') == 'whichdo' else _r13(c)))
+        chk.finish(lambda c: schedcheck.replay_cand(chk, scn, c) if c.get('kind') == 'sched' else (_rbj(c) if c.get('kind') == 'argv' else (whichdo_replay(scn, c) if c.get('kind') == 'whichdo' else _r13(c))))
     finally:
         scn.cleanup()
 finally:
